@@ -607,6 +607,9 @@ package vanguard
 //@   ensures[C03] old(w.endWritten) ==> w.endWritten
 //@   ensures[C16] !old(w.headersWritten) && !old(w.endWritten) && w.err == nil && !mustBuffer(w.op.client.protocol) && !typeIs(w.w, *errorWriter) ==> w.headersFlushed && w.buf == nil
 //@   ensures[C16] !old(w.headersWritten) && w.buf != nil ==> mustBuffer(w.op.client.protocol)
+// C04: an error body that has to be read before the error can be reported (Connect unary, REST) is
+// decompressed with the compression the response declares, exactly like a message body.
+//@   ensures[C04] !old(w.headersWritten) && typeIs(w.w, *errorWriter) && w.respMeta.compression != "" ==> has(w.op.compressors, w.respMeta.compression) && w.op.server.respCompression == w.op.compressors[w.respMeta.compression]
 
 //@ func (*responseWriter).Write
 //@   requires rwFull(w)
@@ -1266,6 +1269,14 @@ package vanguard
 //@   track splits = bytes.Split
 //@   track cuts = bytes.Cut
 //@   ensures[C04] splits == 1
+// C05: every line of the trailer frame contributes one value (repeated keys keep all their values):
+// the block is accumulated with Add, one per parsed line, and never overwritten.
+//@   track adds = (net/http.Header).Add
+//@   track sets ?= (net/http.Header).Set
+//@   track dels ?= (net/http.Header).Del
+//@   loop 1 invariant[C05] adds == cuts
+//@   ensures[C05] r1 == nil ==> adds == cuts
+//@   ensures[C05] sets == 0 && dels == 0
 
 // C05: whatever trailers the backend's HTTP response carries become the trailers of the RPC end.
 //@ func (restServerProtocol).extractEndFromTrailers
